@@ -155,6 +155,22 @@ def run(ctx, configs=None):
             cap_reads = sorted({(repr(cursor.reading(x)["off"]), cursor.reading(x)["width"]) for x in T.walk(caps) if cursor.reading(x) is not None})
             if is41:
                 n41 += 1
+                # the 32 bytes in front of the user name are read or skipped, never *matched*: a content test there (the reserved
+                # bytes "are all zero", a particular collation, ..) refuses clients that put something else in them (MariaDB
+                # connectors store extended capabilities in the reserved bytes) before the shim is asked
+                for pos, blk, t in p.calls():
+                    cn = cname(t["func"])
+                    if re.search(r"^nom::bytes::complete::(tag|tag_no_case|is_a|is_not|take_while1|take_till1)::\{closure#0\}$|^nom::combinator::verify::\{closure#0\}$|^nom::character::complete::(char|one_of|none_of)::\{closure#0\}$", cn):
+                        try:
+                            a1 = p.arg(pos, 1)
+                            if isinstance(a1, tuple) and a1[0] == "agg" and a1[1] == "tuple" and len(a1[4]) == 1:
+                                a1 = a1[4][0]      # closures are called with their arguments as a tuple
+                            b0, o0, l0 = cursor.locate(a1)
+                        except Exception:
+                            b0, o0 = None, None
+                        if o0 is not None and o0.is_const() and o0.c < 32 and T.is_param(T.peel(b0), 1):
+                            ctx.ob("C11.response-layout", False, "4.1 response: the bytes at offset %d (in front of the user name) are matched against a pattern by %s instead of being skipped: a client that sets them is refused before the shim is asked"
+                                   % (o0.c, cn.split("::")[3] if cn.count("::") > 3 else cn), fn=ch.path, construct="content-test-before-user", where=ch.where(blk))
                 # caps = from_bits_truncate((cap2 as u32) << 16 | cap as u32) with cap @0 (u16) and cap2 @2 (u16)
                 shl = T.find(caps, lambda x: isinstance(x, tuple) and x[0] == "bin" and x[1] == "Shl" and T.is_const_int(x[3], 16))
                 hi = cursor.reading(T.find(shl[2], lambda x: cursor.reading(x) is not None)) if shl is not None else None
